@@ -163,3 +163,4 @@ MANIFEST = {
             'Bounds the parser does not claim (e.g. skew <= 0) are not asserted.',
 }
 MANIFEST['text'] += (' ' + 'Half of the cases use a nested -o path whose parent does not exist; 10% are preceded by an unrelated Generator run.')
+MANIFEST['text'] += (' ' + 'Bound violations are also written as fractions (pmax = n2 + 0.9, lq = uq + 0.5, ...).')
